@@ -130,7 +130,7 @@ func (g *gen) md(max int) []KV {
 				v = append(v, c)
 			}
 		}
-		out = append(out, KV{K: k, V: string(v)})
+		out = append(out, KV{K: k, V: RawStr(v)})
 	}
 	return out
 }
@@ -141,11 +141,11 @@ func (g *gen) status() *StatusSpec {
 	st := &StatusSpec{}
 	if g.p(g.k.pPlainErr / (g.k.pErr + 1e-9)) {
 		st.Plain = 1 + g.pick(4)
-		st.Msg = statusMsgs[g.pick(len(statusMsgs))]
+		st.Msg = RawStr(statusMsgs[g.pick(len(statusMsgs))])
 		return st
 	}
 	st.Code = allCodes[g.pick(len(allCodes))]
-	st.Msg = statusMsgs[g.pick(len(statusMsgs))]
+	st.Msg = RawStr(statusMsgs[g.pick(len(statusMsgs))])
 	if g.p(0.3) {
 		st.Details = 1 + g.pick(3)
 	}
@@ -196,6 +196,7 @@ func (g *gen) rpc(id int) *RPC {
 	r.StopOnErr = g.p(k.pStopOnErr)
 	nReq := g.pick(k.maxMsgs + 1)
 	nResp := g.pick(k.maxMsgs + 1)
+	forceSplit := false
 	var c, h []Op
 	hdrs := func() {
 		if g.p(k.pMD) {
@@ -317,11 +318,9 @@ func (g *gen) rpc(id int) *RPC {
 					cr = append(cr, recvOp())
 				}
 			}
+			c = g.interleave(cs, cr)
 			if g.p(k.pSplit * 3) {
-				c = cs
-				r.Client2 = cr
-			} else {
-				c = g.interleave(cs, cr)
+				forceSplit = true
 			}
 			var hs, hr []Op
 			if g.p(0.7) {
@@ -401,8 +400,10 @@ func (g *gen) rpc(id int) *RPC {
 			}
 		}
 	}
-	if r.Kind != KUnary && len(r.Client2) == 0 && !http && g.p(k.pSplit) {
-		// sender / receiver split of whatever the script is
+	if r.Kind != KUnary && len(r.Client2) == 0 && !http && (forceSplit || g.p(k.pSplit)) {
+		// sender / receiver split of whatever the script is: all sending
+		// operations in one goroutine, everything else in the other (gRPC
+		// allows one sender and one receiver per stream, not more)
 		var a, b []Op
 		for _, o := range c {
 			if o.K == "send" || o.K == "closesend" {
